@@ -3,5 +3,7 @@
 head = open('/verif/tools/design_head.md').read()
 tail = open('/verif/tools/design_tail.md').read()
 table = open('/verif/seeded/TABLE.md').read()
-open('/verif/DESIGN.md', 'w').write(head + tail.replace('@MUTANT_TABLE@', table))
+import os
+btable = open('/verif/benign/TABLE.md').read() if os.path.exists('/verif/benign/TABLE.md') else '(not run yet)'
+open('/verif/DESIGN.md', 'w').write(head + tail.replace('@MUTANT_TABLE@', table).replace('@BENIGN_TABLE@', btable))
 print(len((head + tail).splitlines()), "lines")
